@@ -1081,3 +1081,117 @@ class C13(PropOracle):
 
 
 ORACLES["C13"] = C13
+
+
+RE_STAGE = re.compile(r"output-stage(\d+)")
+
+
+class C15(PropOracle):
+    """Pipeline stages strictly in order, each exactly once; pipeline.json matches what happened."""
+
+    prop = "C15"
+
+    def __init__(self):
+        self.inits = {}  # stage -> number of initialisations (config.json dumps)
+        self.next_calls = {}  # stage_num argument -> count
+        self.prev_pipeline = None
+        self.stage_done_at = {}
+
+    def digest(self):
+        return repr((sorted(self.inits.items()), sorted(self.next_calls.items()),
+                     (self.prev_pipeline or {}).get("stage_num"), (self.prev_pipeline or {}).get("is_complete")))
+
+    def _stage_complete(self, w, k):
+        c = read_json(f"{w.root}/output-stage{k}/cluster_config.json")
+        return bool(c and c.get("is_complete"))
+
+    def _require_previous_complete(self, w, k, what):
+        for p in range(1, k):
+            if not self._stage_complete(w, p):
+                self.v(w, f"{what} of stage {k} while stage {p} is not complete", "stage-started-early")
+
+    def on_sbatch(self, w, vp, d):
+        m = RE_STAGE.search(d.get("config") or d.get("script") or "")
+        if m:
+            self._require_previous_complete(w, int(m.group(1)), f"sbatch {d.get('name')}")
+
+    def on_launch(self, w, vp, d):
+        m = RE_STAGE.search(d["env"].get("JADE_RUNTIME_OUTPUT", ""))
+        if m:
+            self._require_previous_complete(w, int(m.group(1)), f"launch of job {d['job']}")
+
+    def on_fwrite(self, w, vp, d):
+        m = re.match(r"output-stage(\d+)/config\.json$", d["rel"])
+        if m:
+            k = int(m.group(1))
+            self.inits[k] = self.inits.get(k, 0) + 1
+            if self.inits[k] > 1:
+                self.v(w, f"stage {k} configured/submitted {self.inits[k]} times", "stage-submitted-twice")
+            self._require_previous_complete(w, k, "configuration")
+
+    def on_nested_start(self, w, vp, d):
+        argv = d["argv"]
+        if argv[1:3] == ["pipeline", "submit-next-stage"]:
+            k = next((int(a.split("=")[1]) for a in argv if a.startswith("--stage-num=")), None)
+            if vp.name == "dup":
+                return  # the scenario's own duplicated trigger
+            self.next_calls[k] = self.next_calls.get(k, 0) + 1
+            if self.next_calls[k] > 1:
+                self.v(w, f"submit-next-stage --stage-num={k} invoked {self.next_calls[k]} times", "next-stage-twice")
+            if k is not None and not self._stage_complete(w, k - 1):
+                self.v(w, f"submit-next-stage --stage-num={k} invoked before stage {k - 1} was marked complete", "next-stage-early")
+
+    def on_transition(self, w, vp, d):
+        if "pipeline.json" not in w.written:
+            return
+        p = read_json(w.rootp + "pipeline.json")
+        if p is None:
+            return
+        n = len(p["stages"])
+        prev = self.prev_pipeline
+        if prev is not None:
+            if p["stage_num"] < prev["stage_num"]:
+                self.v(w, f"pipeline stage_num went back {prev['stage_num']} -> {p['stage_num']}", "stage-num-regress")
+            if p["stage_num"] > prev["stage_num"] + 1:
+                self.v(w, f"pipeline stage_num jumped {prev['stage_num']} -> {p['stage_num']}", "stage-num-jump")
+            if prev.get("is_complete") and not p.get("is_complete"):
+                self.v(w, "pipeline is_complete reverted", "pipeline-complete-reverted")
+        for k in range(1, min(p["stage_num"], n + 1)):
+            if not self._stage_complete(w, k):
+                self.v(w, f"pipeline.json says current stage is {p['stage_num']} but stage {k} is not complete", "stage-num-ahead")
+        if p.get("is_complete"):
+            for k in range(1, n + 1):
+                if not self._stage_complete(w, k):
+                    self.v(w, f"pipeline marked complete while stage {k} is not complete", "pipeline-complete-early")
+        self.prev_pipeline = p
+
+    def on_end(self, w, vp, d):
+        if w.data.get("faulty"):
+            return
+        p = read_json(w.rootp + "pipeline.json")
+        if p is None:
+            self.v(w, "no pipeline.json", "no-pipeline-json")
+            return
+        n = len(w.scen["stages"])
+        if not p.get("is_complete") or p.get("stage_num") != n + 1:
+            self.v(w, f"pipeline did not complete: stage_num={p.get('stage_num')} is_complete={p.get('is_complete')} "
+                      f"(stages complete: {[self._stage_complete(w, k) for k in range(1, n + 1)]})", "pipeline-incomplete")
+            return
+        for k in range(1, n + 1):
+            if self.inits.get(k, 0) != 1:
+                self.v(w, f"stage {k} was configured {self.inits.get(k, 0)} times", "stage-init-count")
+            res = read_json(f"{w.root}/output-stage{k}/results.json") or {}
+            want = 1 if res.get("missing_jobs") else 0
+            got = p["stages"][k - 1].get("return_code")
+            if got != want:
+                self.v(w, f"pipeline.json records return_code {got} for stage {k}, the stage ended with {want}", "stage-return-code")
+            names = {j["name"] for j in w.scen["stages"][k - 1]["jobs"]}
+            have = {r["name"] for r in res.get("results", [])}
+            if names != have | set(res.get("missing_jobs", [])):
+                self.v(w, f"stage {k} results list {sorted(have)} for jobs {sorted(names)}", "stage-results")
+        for k in range(2, n + 2):
+            if self.next_calls.get(k, 0) != 1:
+                self.v(w, f"submit-next-stage --stage-num={k} invoked {self.next_calls.get(k, 0)} times", "next-stage-count")
+
+
+ORACLES["C15"] = C15
